@@ -381,3 +381,30 @@ def completion_algebra(rec, comps, code, line, column, fuzzy, w, expected_fragme
                 rec.violate('c04:order', 'completion %r sorted before %r' % (ea[0], eb[0]),
                             keys=[list(a), list(b)], **w)
                 break
+
+
+# --------------------------------------------------------------- jedi's own give-up warnings
+
+class LimitWatch:
+    """Collects jedi's debug warnings about its documented give-up limits (execution depth /
+    count / per-function limits, per-node inference cap) while a query runs.  Properties that
+    are quantified over programs "of bounded size so that the give-up limits are not hit"
+    (C02, C04 completeness) treat a probe whose query hit a limit as inconclusive."""
+
+    def __init__(self):
+        self.hits = []
+
+    def _cb(self, color, text):
+        if 'imit' in text and 'reached' in text or 'In value' in text and 'too many' in text:
+            self.hits.append(text.strip()[:120])
+
+    def __enter__(self):
+        import jedi
+        self.hits = []
+        jedi.set_debug_function(self._cb, warnings=True, notices=False, speed=False)
+        return self
+
+    def __exit__(self, *exc):
+        import jedi
+        jedi.set_debug_function(None)
+        return False
